@@ -119,6 +119,9 @@ IdentProg(x, pos) ==
               ELSE Decl(<< >>, << >>, <<IdentSig(x, pos)>>)), "I")
    EXCEPT !.idclass = IdClassOf(x), !.ident = x, !.pos = pos]
 IdentAll == {IdentProg(x, pos) : x \in Idents, pos \in Positions}
+\* quick tier: every position for the classes the templates and the allocator interact with, three positions for the rest
+IdentQuick == {IdentProg(x, pos) : x \in IdPkgName \cup IdPredecl \cup IdTplLocal \cup IdTypeName, pos \in Positions}
+              \cup {IdentProg(x, pos) : x \in IdOrdinary \cup IdCommon \cup IdNonAscii, pos \in {"p1", "pv", "r1", "pair"}}
 \* field-name clashes after `exported` (matryer call-info struct)
 CaseClash == {[P("ident/" \o a \o "+" \o b, "ident", "caseclash", "cs",
                  One("I", Decl(<< >>, << >>, <<Meth("M", <<V(a, Int), V(b, Str)>>, <<V("", Err)>>, FALSE)>>)), "I")
@@ -280,7 +283,7 @@ LocalAll == {LocalProg(n) : n \in LocalNamed} \cup {UnnamedProg(ts) : ts \in Unn
 AllPkgIds == ForeignPkgs \cup StdPkgs \cup {"TM"}
 ASSUME PrintT(<<"TABLES", ToJson([pkgnames |-> [p \in AllPkgIds |-> PkgName(p, "")], methodorder |-> MethodOrder])>>)
 
-MCQuick    == ShapeQuick \cup IdentAll \cup CaseClash \cup PkgsQuick \cup EmbedQuick \cup GenericAll \cup MNameAll \cup LocalAll \cup MultiQuick
+MCQuick    == ShapeQuick \cup IdentQuick \cup CaseClash \cup PkgsQuick \cup EmbedQuick \cup GenericAll \cup MNameAll \cup LocalAll \cup MultiQuick
 MCThorough == ShapeThorough \cup IdentAll \cup CaseClash \cup PkgsThorough \cup EmbedThorough \cup GenericAll \cup MNameAll \cup LocalAll \cup MultiThorough
 \* small smoke set used while developing
 MCSmoke    == {ShapeProg(t, "d1") : t \in {Int, N("FX", "T"), Chan("recv", N("FY", "T"))}} \cup {IdentProg(x, "p1") : x \in {"io", "mock", "string"}}
